@@ -148,6 +148,10 @@ def pmap(fn, tasks, nproc=None, timeout=None, chunksize=1):
             yield r
         return
     ctx = multiprocessing.get_context('fork')
+    limit = timeout or 3000
+    done = 0
+    crashed = False
+    _SEEN_PIDS.clear()
     with ctx.Pool(nproc, maxtasksperchild=None) as pool:
         # the watchdog lives in the parent (work items use SIGALRM / ITIMER_REAL themselves for per-call deadlines)
         if chunksize > 1:
@@ -155,21 +159,71 @@ def pmap(fn, tasks, nproc=None, timeout=None, chunksize=1):
             it = pool.imap_unordered(_chunk_entry, [(fn, c) for c in chunks])
         else:
             it = pool.imap_unordered(_worker_entry, [(fn, t, None) for t in tasks])
+        waited = 0.0
+        _SEEN_PIDS[id(pool)] = frozenset(p.pid for p in pool._pool)
         while True:
             try:
-                st, r = it.next(timeout or 3000)
+                st, r = it.next(2.0)
+                waited = 0.0
             except StopIteration:
                 break
             except multiprocessing.TimeoutError:
-                pool.terminate()
-                raise HarnessError(f'no work item finished within {timeout or 3000} s: a work item hangs')
+                waited += 2.0
+                if any(p.exitcode not in (None, 0) for p in pool._pool) or _lost_worker(pool, nproc):
+                    crashed = True
+                    pool.terminate()
+                    break
+                if waited >= limit:
+                    pool.terminate()
+                    raise HarnessError(f'no work item finished within {limit} s: a work item hangs')
+                continue
             if st == 'err':
                 pool.terminate()
                 raise HarnessError(r)
             if st == 'chunk':
+                done += len(r)
                 yield from r
             else:
+                done += 1
                 yield r
+    if crashed:
+        # a worker process died (the interpreter crashed inside the code under test): find the work item by running
+        # the items one at a time, each in a process of its own
+        for t in tasks:
+            parent, child = ctx.Pipe(False)
+            proc = ctx.Process(target=_isolated_entry, args=(child, fn, t))
+            proc.start()
+            child.close()
+            proc.join(limit)
+            if proc.is_alive():
+                proc.kill()
+                raise HarnessError(f'work item {t!r} hangs')
+            if proc.exitcode != 0:
+                raise WorkerCrash(t, proc.exitcode)
+        raise HarnessError('a worker process died, but no single work item reproduces it')
+
+
+_SEEN_PIDS = {}
+
+
+def _lost_worker(pool, nproc):
+    """multiprocessing.Pool silently replaces a worker that died; a changed set of worker pids reveals it."""
+    pids = frozenset(p.pid for p in pool._pool)
+    first = _SEEN_PIDS.setdefault(id(pool), pids)
+    return pids != first
+
+
+def _isolated_entry(conn, fn, task):
+    st, r = _worker_entry((fn, task, None))
+    os._exit(0 if st == 'ok' else 3)
+
+
+class WorkerCrash(Exception):
+    """The interpreter died (segmentation fault / fatal error) while a work item ran the code under test."""
+
+    def __init__(self, task, exitcode):
+        super().__init__(f'interpreter died with exit code {exitcode} in work item {task!r}')
+        self.task, self.exitcode = task, exitcode
 
 
 def _chunk_entry(args):
